@@ -111,10 +111,10 @@ MUTANTS = {
     except Exception as ex:  # nocover""")],
         why='temporary sys.path entry left behind when the import fails'),
     'c12_syspath_pop_wrong_index': dict(prop='C12', edits=[(UI,
-        """                warnings.warn('\\n'.join(msg_parts))
-                sys.path.pop(real_index)""",
-        """                warnings.warn('\\n'.join(msg_parts))
-                sys.path.pop(self.index)""")],
+        """                sys.path.pop(real_index)
+                warnings.warn('\\n'.join(msg_parts))""",
+        """                sys.path.pop(self.index)
+                warnings.warn('\\n'.join(msg_parts))""")],
         why='recovery branch removes somebody else\'s entry'),
     'c12_manual_filter_restore_no_finally': dict(prop='C12', edits=[(DE,
         """        with warnings.catch_warnings(record=True) as self.warn_list:
